@@ -327,11 +327,11 @@ Qed.
 Lemma legacy_groups top e fs body :
   wf_env e = true -> wf_flavors fs = true -> forallb wf_cmd body = true -> is_nil body = false ->
   let chain := [IChain (mkBranch (flavor_disj fs) body plain_blay) [] None plain_blay] in
-  read_text true top (print_new_group fs body) = read_text true top (print_table chain) /\
-  read_text true top (print_old_group fs body) = read_text true top (print_table chain) /\
-  table_actions true top (print_new_group fs body) e
+  read_text true true top (print_new_group fs body) = read_text true true top (print_table chain) /\
+  read_text true true top (print_old_group fs body) = read_text true true top (print_table chain) /\
+  table_actions true true top (print_new_group fs body) e
   = Ok (if mem_str (ce_flavor e) fs then denote_body top body else []) /\
-  table_actions true top (print_old_group fs body) e
+  table_actions true true top (print_old_group fs body) e
   = Ok (if mem_str (ce_flavor e) fs then denote_body top body else []).
 Proof.
   intros He Hf Hb Hne chain.
@@ -339,16 +339,14 @@ Proof.
   pose proof (rewrite_new_group fs body Hf Hb Hne) as RN.
   pose proof (rewrite_old_group fs body Hf Hb) as RO.
   destruct (wf_flavors_parts fs Hf) as (Hn & _).
-  assert (E1 : read_text true top (print_new_group fs body) = read_text true top (print_table chain)).
+  assert (E1 : read_text true true top (print_new_group fs body) = read_text true true top (print_table chain)).
   { unfold read_text. now rewrite RN, RC. }
-  assert (E2 : read_text true top (print_old_group fs body) = read_text true top (print_table chain)).
+  assert (E2 : read_text true true top (print_old_group fs body) = read_text true true top (print_table chain)).
   { unfold read_text. now rewrite RO, RC. }
-  assert (NE : no_empty_branch chain = true).
-  { unfold chain. cbn [no_empty_branch forallb no_empty_branch_item b_body]. now rewrite Hne. }
-  assert (A : table_actions true top (print_table chain) e
+  assert (A : table_actions true true top (print_table chain) e
               = Ok (if mem_str (ce_flavor e) fs then denote_body top body else [])).
-  { unfold table_actions. rewrite (read_text_print top chain W).
-    rewrite (read_blocks_items top (fun c Hc => split_print_args _ _ (proj1 (proj2 (wf_cmd_parts c Hc)))) chain W NE).
+  { unfold table_actions. rewrite (read_text_print true top chain W). unfold read_blocks_sel.
+    rewrite (read_blocks_r_items top (fun c Hc => split_print_args _ _ (proj1 (proj2 (wf_cmd_parts c Hc)))) chain W).
     cbn [bind].
     assert (Hcond : forall c, wf_cond c = true -> eval_cond true e (print_cond c) = Ok (denote e c)).
     { intros c Hc. unfold eval_cond, eval_value. rewrite (tokenize_print_cond c Hc), (eval_tokens_sound e He c Hc). reflexivity. }
